@@ -8,6 +8,8 @@ global-phase trial point y (from the Calculate log) and every coordinate i:
                      boxes) and none of its coordinates is on the m grid (cell-centre grids of different densities are
                      disjoint); the two runs do not evaluate the same first point
   evolvent-density   the Solver's evolvent object reports the configured density
+  stored-on-grid     (runs driven as iterations / refinement / more iterations / GetResults) at most ONE stored trial - the one the
+                     local refinement improved in place - carries a point off the grid
   all-cells-small-m  (informative clause for m = 2, N = 2, long runs) the number of distinct points never exceeds (2^m)^N
 """
 import os
@@ -23,7 +25,9 @@ import o1_common as oc
 PROP = "C20"
 RULE = ("random objective, N=2..5, density m uniformly in 2..12 subject to N*m<=60, box: 50% dyadic ([0,1]^N or [-1,1]^N, "
         "tested exactly with Fractions) else streams.gen_box (incl. tiny/huge/non-symmetric, tested to 1e-6 of a cell); "
-        "itersLimit in {5..200}; a second density m2 != m is run on the same problem. Distinct by parameter set; non-trivial "
+        "itersLimit in {5..200}; a second density m2 != m is run on the same problem; 15% of the cases driven as DoGlobalIteration(k1), "
+        "DoLocalRefinement, DoGlobalIteration(k2), GetResults() - then also the STORED trials are tested (clause stored-on-grid: all but the one "
+        "refined trial still carry their grid point). Distinct by parameter set; non-trivial "
         "if the run has >= 5 trials and visits >= 3 distinct cells.")
 
 
@@ -78,7 +82,15 @@ def check_case(case):
         run = oc.Run(c)
         err = None
         try:
-            run.solve()
+            if case.get("steps"):
+                # the user drives the phases: global iterations, a local refinement, MORE global iterations, GetResults()
+                k1, k2 = case["steps"]
+                if run.iterate(k1):
+                    run.refine(-1)
+                    run.iterate(k2)
+                run.solver.GetResults()
+            else:
+                run.solve()
         except BaseException as e:             # noqa
             err = repr(e)
         if run.trouble(err):
@@ -90,6 +102,18 @@ def check_case(case):
         pts = [e[1] for e in run.glog()]
         runs[tag] = pts
         check_points(case, mm, pts, dyadic, vs, tag)
+        if case.get("steps") and not err:
+            # the trials the solver KEEPS (search information; what listeners are handed) still carry the grid point they were made at -
+            # except the single trial a local refinement improved in place
+            off = []
+            for j, it in enumerate(run.solver.searchData._allTrials[2:]):
+                y = [float(v) for v in it.GetY().floatVariables]
+                if any(abs(grid_index(v, case["lower"][i], case["upper"][i], mm) - round(grid_index(v, case["lower"][i], case["upper"][i], mm)))
+                       > grid_tol(case["lower"][i], case["upper"][i], mm) for i, v in enumerate(y)):
+                    off.append({"trial": j + 1, "stored_point": y, "evaluated_at": list(pts[j]) if j < len(pts) else None})
+            if len(off) > 1:
+                vs.append(oc.violation(PROP, case, "stored-on-grid", {"run": tag, "density": mm, "off_grid_stored_trials": off[:3],
+                                                                      "count": len(off), "allowed": "1 (the refined trial)"}))
         if len(set(pts)) > (2 ** mm) ** n:
             vs.append(oc.violation(PROP, case, "all-cells-small-m", {"density": mm, "distinct_points": len(set(pts))}))
     # the second density is really a different grid
@@ -128,6 +152,10 @@ def gen(r):
     if m2 > cap or case["m"] == min(m2, cap):
         m2 = next((x for x in range(cap, 1, -1) if x != case["m"]), 2 if case["m"] != 2 else 3)
     case["m2"] = m2
+    if r.random() < 0.15:
+        case["steps"] = [r.choice([3, 8, 20]), r.choice([5, 15, 40])]
+        for k_ in ("shipped",):
+            case.pop(k_, None)
     return case
 
 
